@@ -136,5 +136,8 @@ def fromZuniq (q : Qty) (w z : Nat) : Cell :=
 def widen (k x : Nat) : Nat := x <<< k
 /-- `from_u64_idx`: to a narrower type (drops the `k` low bits). -/
 def narrow (k x : Nat) : Nat := x >>> k
+/-- Exclusive END of a range to a narrower type: `from_u64_idx` rounds down, so one is added when bits
+    were dropped (`if end.to_u64_idx() < range.end { end + 1 }`). -/
+def narrowUp (k x : Nat) : Nat := if widen k (narrow k x) < x then narrow k x + 1 else narrow k x
 
 end Moc
